@@ -651,7 +651,12 @@ class SymExec(object):
                 # calling a function chosen by a conditional (a dispatch table lookup) = choosing among the calls
                 def spread(ft):
                     if ft[0] == 'ifexp':
-                        return ('ifexp', ft[1], spread(ft[2]), spread(ft[3]))
+                        self._guard.append((ft[1], True))
+                        a_ = spread(ft[2])
+                        self._guard[-1] = (ft[1], False)
+                        b_ = spread(ft[3])
+                        self._guard.pop()
+                        return ('ifexp', ft[1], a_, b_)
                     if ft[0] == 'sym' and ft[1] == 'key-error':
                         return ft
                     ct = ('call', ft, tuple(args), kws)
@@ -660,7 +665,10 @@ class SymExec(object):
                         r_ = self.inline_expr(fd_, ft, tuple(args), kws, st)
                         if r_ is not None:
                             return r_
-                    st.events.append(('call', ct, n))
+                    ev2_ = ('call', ct, n)
+                    st.events.append(ev2_)
+                    if self._guard:
+                        st.data.setdefault('eguards', {})[id(ev2_)] = (ev2_, tuple(self._guard))
                     return ct
                 return spread(f)
             if f[0] == 'attr' and f[2] == '_asdict' and not args and not kws and f[1][0] == 'call' and f[1][1][0] == 'name':
@@ -1140,12 +1148,48 @@ class SymExec(object):
             return None
         probe = st.copy()
         f = self.ev(call_node.func, probe)
+        if f[0] == 'ifexp':
+            # the callee is chosen by a conditional (dispatch table): one fork per choice, under its condition
+            try:
+                alts = alternatives(f)
+            except ValueError:
+                return None
+            if len(alts) > 12:
+                return None
+            fds = [(g, ft, self.resolve(ft, probe)) for g, ft in alts]
+            if not any(fd is not None and _forkable(fd) for _, _, fd in fds):
+                return None
+            return self._fork_dispatch(fds, call_node, st)
         fd = self.resolve(f, probe)
         if fd is None:
             return None
         if not _forkable(fd):
             return None
         return self._fork(fd, f, call_node, st)
+
+    def _fork_dispatch(self, fds, call_node, st):
+        for g, ft, fd in fds:
+            st2 = st.copy()
+            for c, p_ in g:
+                for alt in expand_cond(c, p_)[:1]:
+                    for a_, q_ in alt:
+                        record_cond(st2, a_, q_, call_node)
+            if contradictory(st2.conds):
+                continue
+            if ft[0] == 'sym' and ft[1] == 'key-error':
+                st2.exc = ('call', ('name', 'KeyError'), (), ())
+                st2.events.append(('raise', st2.exc, call_node))
+                yield st2, 'raise', None
+                continue
+            if fd is not None and _forkable(fd):
+                for r in self._fork(fd, ft, call_node, st2):
+                    yield r
+                continue
+            args = [self.ev(a, st2) for a in call_node.args if not isinstance(a, ast.Starred)]
+            kws = tuple((kw.arg, self.ev(kw.value, st2)) for kw in call_node.keywords)
+            t = ('call', ft, tuple(args), kws)
+            st2.events.append(('call', t, call_node))
+            yield st2, 'value', t
 
     def _fork(self, fd, f, call_node, st):
         args = []
